@@ -6,6 +6,7 @@ import Holpy.C16.SimplexRun
 import Holpy.C16.SimplexFuel
 import Holpy.C16.SimplexTermination
 import Holpy.C16.SimplexTrajectory
+import Holpy.C16.SimplexBland
 import Holpy.C16.SimplexBBProofs
 /-
 C16 — property theorems about the model of `prover/simplex.py` (`Simplex`).  The model
@@ -285,5 +286,15 @@ theorem bland_no_repeat_adjacent_partial (s s' : SState) (hinv : Inv s) (h : ste
   step_changes_conf s s' hinv h
 
 example : (match step exampleSat with | .next _ => true | _ => false) = true := by decide +kernel
+
+/-- Bland's rule, leaving side, as modelled (fix C16-5): the variable `check()` repairs is the
+smallest violated basic variable — every smaller basic variable is within its bounds.  (The entering
+side is `find_sorted_min`: the first suitable element of the row sorted by variable.)  Ingredient of
+the missing no-repeat argument. -/
+theorem bland_leaving_is_smallest (s : SState) (xi : Var) (h : pickViolated s = some xi) :
+    ∀ x, isBasic s x = true → x < xi → ltLo s x = false ∧ gtHi s x = false :=
+  pickViolated_min s xi h
+
+example : pickViolated exampleSat = some 0 := by decide +kernel
 
 end Holpy.C16
